@@ -246,6 +246,76 @@ func c10sched(c *core.Ctx) {
 			vsched.Logf("ok")
 		}})
 	}
+	// (4) the broker does not close an older connection with the same client identifier, so a
+	// second CleanSession=0 connection may be accepted while the first is still there (a client
+	// that moved to another network; the old socket lingers).  The subscriptions acknowledged
+	// on either connection belong to the one session: whichever connection ends first, by a
+	// cut or by DISCONNECT, the next CleanSession=0 connection has all of them active again
+	for _, v := range []struct {
+		name       string
+		olderFirst bool
+		disc       bool
+	}{{"the older one is cut first", true, false}, {"the newer one is cut first", false, false}, {"the older one sends DISCONNECT first", true, true}, {"the newer one sends DISCONNECT first", false, true}} {
+		v := v
+		scs = append(scs, scen{"two connections share a persistent session, each subscribes; " + v.name, func() {
+			t := newTD()
+			p := t.connect("P", 0, 65535, false)
+			x1, _ := connectAs(t, "X1", "x", false)
+			if x1 == nil {
+				return
+			}
+			subscribeAs(t, x1, 1, "a", 1)
+			x2, ack2 := connectAs(t, "X2", "x", false)
+			if x2 == nil {
+				return
+			}
+			if !ack2.SessionPresent {
+				vsched.Failf("second CleanSession=0 connection of a client identifier whose session exists: SessionPresent=0")
+				return
+			}
+			subscribeAs(t, x2, 2, "b", 1)
+			subscribeAs(t, x1, 3, "c", 0)
+			if vsched.Failed() {
+				return
+			}
+			vsched.Mark()
+			end := func(rc *RawClient) {
+				if v.disc {
+					rc.Send(&refcodec.Packet{Type: refcodec.DISCONNECT})
+				}
+				rc.Cut()
+				t.w.Settle()
+			}
+			if v.olderFirst {
+				end(x1)
+				end(x2)
+			} else {
+				end(x2)
+				end(x1)
+			}
+			x3, ack := connectAs(t, "X3", "x", false)
+			if x3 == nil {
+				return
+			}
+			if !ack.SessionPresent {
+				vsched.Failf("%s: the next CleanSession=0 CONNECT got SessionPresent=0", v.name)
+				return
+			}
+			for i, f := range []string{"a", "b", "c"} {
+				pl := "probe-" + f
+				p.rc.Send(&refcodec.Packet{Type: refcodec.PUBLISH, Topic: []byte(f), QoS: 1, ID: uint16(90 + i), Payload: []byte(pl)})
+				t.w.Settle()
+				if n, _ := count(x3.Take(), f, pl); n != 1 {
+					vsched.Failf("%s: filter %q was acknowledged on one of the two connections of the session; the resuming connection received a probe on it %d times", v.name, f, n)
+					return
+				}
+			}
+			if t.badStream() {
+				return
+			}
+			vsched.Logf("ok")
+		}})
+	}
 	for _, sc := range scs {
 		if c.Expired() || c.HasViolation() {
 			return
